@@ -24,6 +24,29 @@ package cluster
 // replies); every phase ends with quiet periods (no writes, no faults, prompt
 // consumer) after which convergence is checked.
 //
+// Extensions (each behind a const switch, see c19RealClient etc.):
+//   * client "real" (half of the runs): the etcd client is created by the
+//     unmodified cluster.getClient from an option.Options value (endpoints from
+//     cluster.initial-cluster or, role secondary, primary-listen-peer-urls;
+//     auto-sync every minute, dial time-out, keep-alive 1 min / 1 min, option
+//     cluster.max-call-send-msg-size in {default 10 MB, 48 KB, 300 KB}). The only
+//     harness ingredients are the simnet dialer (hook variable added to a copy
+//     of clientv3/client.go that check.json overlays on harness/simetcd/clientv3)
+//     and a discarding zap sink for the client's log file. The server side runs
+//     with etcd's own gRPC keep-alive enforcement (min ping interval 5 s).
+//   * wider alphabets: values that differ only in case / surrounding white space /
+//     a trailing byte or are a prefix of one another, values with NUL or invalid
+//     UTF-8, values of 4-70 KB that differ only in their last or first bytes or
+//     in length (a prefix content then exceeds a 48 KB send limit while every
+//     single write is below it); hierarchical key names, names with dot, dash,
+//     space, percent, a non-ASCII letter, a key that is another key plus "/";
+//     prefix targets "/p" (no trailing slash: also covers "/p0") and "/".
+//   * fault "silent" (real client only): the server becomes unreachable WITHOUT
+//     its connections being closed (host powered off, partition): established
+//     connections are black-holed, dials refused, optionally the server process
+//     restarts; afterwards the old connections are reset (rebooted host) or stay
+//     silent for ever (then only the client's keep-alive ends them).
+//
 // Oracle (written from the property statement; the store history comes from
 // simetcd, which logs every revision):
 //   C19.phantom-snapshot      a delivered snapshot equals no content the watched
@@ -46,6 +69,17 @@ package cluster
 // back-to-back. The harness detects >150 Range RPCs per virtual second, logs it
 // and from then on makes every Range cost 50 ms of virtual time, so that the
 // run goes on (snapshots and convergence are still judged).
+//
+// Determinism (added with the extensions, found by `vcheck determinism` on other
+// seed bases: 3 of 1500 seeds): tasks released by the scheduler at the end of a
+// stall continue in ONE virtual instant; two API calls started then had context
+// deadlines in the same instant, and while the server was unreachable the order
+// of those two timers decided between "Unavailable" and a transparent retry.
+// Hence every writer task uses its own cluster value (same client) whose request
+// time-out is a few ns longer; the client is created 173 ns after the start, the
+// pull ticker armed at its own sub-microsecond offset, each dial of the real
+// client delayed by a few ns of its own (auto-sync, keep-alive and ticker never
+// share an instant).
 //
 // Determinism measures (mismatches=0 over 500 seeds): every harness task and
 // every sleep of the simetcd hooks runs on its own sub-microsecond offset (no
@@ -75,9 +109,18 @@ package cluster
 //     convergence, i.e. "eventually" is read as "within 30 such periods";
 //   * a server-initiated watch cancel WITHOUT compact revision is not generated
 //     (etcd only does that in answer to a client cancel / failed creation).
+//   * after a silent outage whose connections stay dead the quiet period is 125 s
+//     longer (so that a client with a keep-alive of about two minutes normally
+//     converges in the first period); the bound that is ASSERTED is the general
+//     one: 30 consecutive quiet periods, here more than an hour;
+//   * an API write refused by the client-side send limit (ResourceExhausted) is
+//     simply a write that did not happen;
+//   * the error code of a failed API write is not part of the property.
 
 import (
+	"bytes"
 	"context"
+	"encoding/hex"
 	"encoding/json"
 	"fmt"
 	"math/rand"
@@ -86,12 +129,13 @@ import (
 	"os"
 	"runtime"
 	"runtime/debug"
-	"strconv"
 	"sort"
+	"strconv"
 	"strings"
 	"sync"
 	"testing"
 	"time"
+	"unicode/utf8"
 	_ "unsafe"
 
 	"go.etcd.io/etcd/api/v3/mvccpb"
@@ -142,12 +186,13 @@ type c19Writer struct {
 
 type c19Fault struct {
 	AtUs    int64  `json:"at_us"`
-	Kind    string `json:"kind"` // break | halt | stop | compact | rangeerr | rangeslow | rangelate | watchslow | lostreply
+	Kind    string `json:"kind"` // break | halt | stop | silent | compact | rangeerr | rangeslow | rangelate | watchslow | lostreply
 	DurUs   int64  `json:"dur_us"`
 	N       int    `json:"n"`
 	Code    string `json:"code"` // unavailable | deadline | unknown
 	Compact bool   `json:"compact"`
 	Back    int64  `json:"back"`
+	Heal    string `json:"heal,omitempty"` // silent: reset (the old connections are reset when the server is reachable again) | dead (they stay silent for ever)
 }
 
 type c19Phase struct {
@@ -176,6 +221,7 @@ type c19Scenario struct {
 	// cluster.getClient from an option.Options value (endpoints from the options,
 	// auto-sync, dial time-out, keep-alive and cluster.max-call-send-msg-size as
 	// in production); "" = created by the harness with a bare clientv3.Config.
+	Alphabet  string `json:"alphabet,omitempty"` // informational: which key/value alphabet the generator used
 	Client    string `json:"client,omitempty"`
 	Role      string `json:"role,omitempty"`        // primary | secondary (which option carries the endpoints)
 	MaxSendKB int    `json:"max_send_kb,omitempty"` // option cluster.max-call-send-msg-size in KB, 0 = the option's default (10 MB)
@@ -184,7 +230,102 @@ type c19Scenario struct {
 var c19Keys = []string{"/p/a", "/p/a", "/p/a", "/p/a1", "/p/b", "/p/b", "/p/c", "/p0", "/p", "/q/a"}
 var c19Vals = []string{"v1", "v1", "v2", "v2", "v3", ""}
 
-func c19GenOp(rng *sim.Rand, burst int) c19Op {
+// Wider alphabets (generator switch c19WideAlphabets). A value is written in a
+// notation that c19Expand turns into the bytes stored: "hex:<hex digits>" are
+// raw bytes (not valid UTF-8, NUL, ...), "big:<n>:<head|tail>:<tag>" is a value
+// of n bytes (a fixed filler with the tag at its head or tail, so two of them
+// differ only in their first bytes, only in their last bytes, or only in
+// length); anything else is literal.
+var (
+	// differ only in case, surrounding white space, a trailing byte, or are a
+	// prefix of one another ("hex:7631" IS "v1": a same-value put)
+	c19ValsNear = []string{"v1", "v1", "V1", "v1 ", " v1", "v1\n", "v", "v11", "", "hex:7631", "hex:763100"}
+	c19ValsBin  = []string{"hex:00", "hex:ff", "hex:fffe", "hex:c328", "hex:e282ac", "", "hex:0000", "hex:ff"}
+	c19ValsBig  = []string{"big:4097:tail:a", "big:4097:tail:b", "big:20001:head:a", "big:20001:tail:a", "big:20001:tail:b",
+		"big:20002:tail:a", "big:70001:tail:a", "big:70001:head:b", "v1", ""}
+	// hierarchical names, names with a dot/dash/space/percent/non-ASCII letter,
+	// a key that is another key plus "/"
+	c19KeysDeep = []string{"/p/a", "/p/a", "/p/a/", "/p/a/b", "/p/a/b", "/p/a.b-c_d", "/p/\u00fc", "/p/a b", "/p/%2F", "/p", "/p0", "/q/a", "/p/a1"}
+)
+
+type c19Alphabet struct {
+	name          string
+	keys, vals    []string
+	prefixT, keyT []string // targets of prefix / key syncers
+	delPrefixes   []string
+}
+
+var c19Plain = c19Alphabet{name: "plain", keys: c19Keys, vals: c19Vals,
+	prefixT: []string{"/p/", "/p/", "/p/a"}, keyT: []string{"/p/a", "/p/a", "/p/b"}, delPrefixes: []string{"/p/", "/p/a", "/p", "/q/"}}
+
+func c19PickAlphabet(rng *sim.Rand) c19Alphabet {
+	a := c19Plain
+	if !c19WideAlphabets {
+		return a
+	}
+	switch x := rng.Intn(100); {
+	case x < 40:
+	case x < 62:
+		a.name, a.vals = "near", c19ValsNear
+	case x < 72:
+		a.name, a.vals = "bin", c19ValsBin
+	default:
+		a.name, a.vals = "big", c19ValsBig
+	}
+	if rng.Bool(0.3) {
+		a.name += "+deep"
+		a.keys = c19KeysDeep
+		a.prefixT = []string{"/p/", "/p/a", "/p/a/", "/p", "/"}
+		a.keyT = []string{"/p/a", "/p/a/", "/p/a b", "/p/\u00fc", "/p", "/p/a/b"}
+		a.delPrefixes = []string{"/p/", "/p/a", "/p/a/", "/p", "/q/"}
+	}
+	return a
+}
+
+// c19Expand turns the value notation of a scenario into the stored bytes.
+func c19Expand(v string) string {
+	switch {
+	case strings.HasPrefix(v, "hex:"):
+		if b, err := hex.DecodeString(v[4:]); err == nil {
+			return string(b)
+		}
+	case strings.HasPrefix(v, "big:"):
+		f := strings.Split(v, ":")
+		if len(f) != 4 {
+			return v
+		}
+		n, err := strconv.Atoi(f[1])
+		if err != nil || n < len(f[3]) || n > 1<<20 || (f[2] != "head" && f[2] != "tail") {
+			return v
+		}
+		b := make([]byte, n)
+		for i := range b {
+			b[i] = "0123456789abcdefghijklmnopqrstuvwxyz"[i%36]
+		}
+		if f[2] == "head" {
+			copy(b, f[3])
+		} else {
+			copy(b[n-len(f[3]):], f[3])
+		}
+		return string(b)
+	}
+	return v
+}
+
+// c19ValStr renders a value for fingerprints and messages: short ones quoted,
+// long ones as length + hash + both ends.
+func c19ValStr(b []byte) string {
+	if len(b) <= 40 {
+		return strconv.Quote(string(b))
+	}
+	h := uint64(14695981039346656037)
+	for i := 0; i < len(b); i++ {
+		h = (h ^ uint64(b[i])) * 1099511628211
+	}
+	return fmt.Sprintf("<%d bytes fnv %016x %q..%q>", len(b), h, b[:6], b[len(b)-6:])
+}
+
+func c19GenOp(rng *sim.Rand, burst int, a c19Alphabet) c19Op {
 	op := c19Op{}
 	gaps := []int64{0, 0, 0, 1, 1307, 52_101, 303_217, 1_500_733}
 	switch burst {
@@ -195,8 +336,8 @@ func c19GenOp(rng *sim.Rand, burst int) c19Op {
 	}
 	op.GapUs = gaps[rng.Intn(len(gaps))]
 	op.Via = rng.PickStr("direct", "api")
-	op.Key = c19Keys[rng.Intn(len(c19Keys))]
-	op.Val = c19Vals[rng.Intn(len(c19Vals))]
+	op.Key = a.keys[rng.Intn(len(a.keys))]
+	op.Val = a.vals[rng.Intn(len(a.vals))]
 	switch x := rng.Intn(100); {
 	case x < 55:
 		op.Kind = "put"
@@ -204,20 +345,20 @@ func c19GenOp(rng *sim.Rand, burst int) c19Op {
 		op.Kind = "del"
 	case x < 88:
 		op.Kind = "delprefix"
-		op.Key = rng.PickStr("/p/", "/p/a", "/p", "/q/")
+		op.Key = a.delPrefixes[rng.Intn(len(a.delPrefixes))]
 	default:
 		op.Kind = "txn"
 		n := rng.Range(1, 4)
 		seen := map[string]bool{}
 		for i := 0; i < n; i++ {
-			k := c19Keys[rng.Intn(len(c19Keys))]
+			k := a.keys[rng.Intn(len(a.keys))]
 			if seen[k] {
 				continue
 			}
 			seen[k] = true
 			kv := c19KV{Key: k}
 			if rng.Bool(0.65) {
-				v := c19Vals[rng.Intn(len(c19Vals))]
+				v := a.vals[rng.Intn(len(a.vals))]
 				kv.Val = &v
 			}
 			op.KVs = append(op.KVs, kv)
@@ -241,6 +382,11 @@ func c19GenBig(rng *sim.Rand) *c19Scenario {
 	sc.LatencyUs = int64(rng.Pick(211, 3109, 3109))
 	if rng.Bool(0.3) {
 		sc.NetDelayUs = []int64{137}
+	}
+	if c19RealClient && rng.Bool(0.5) {
+		sc.Client = "real"
+		sc.Role = rng.PickStr("primary", "secondary")
+		sc.MaxSendKB = rng.Pick(0, 0, 48, 300)
 	}
 	s := c19Syncer{Mode: rng.PickStr("prefix", "rawprefix"), Target: "/p/", PullMs: int64(rng.Pick(200, 1000)), LagsMs: []int64{0}, StartUs: int64(rng.Pick(0, 1009))}
 	sc.Syncers = append(sc.Syncers, s)
@@ -281,8 +427,10 @@ func c19Gen(rng *sim.Rand, tier string) interface{} {
 		sc.NetDelayUs = []int64{53, 1103, 7019}
 	}
 	sc.LatencyUs = int64(rng.Pick(0, 0, 211, 3109))
+	alpha := c19PickAlphabet(rng)
+	sc.Alphabet = alpha.name
 	for i, n := 0, rng.Intn(4); i < n; i++ {
-		op := c19GenOp(rng, 2)
+		op := c19GenOp(rng, 2, alpha)
 		op.Via, op.GapUs = "direct", 0
 		sc.Init = append(sc.Init, op)
 	}
@@ -293,9 +441,9 @@ func c19Gen(rng *sim.Rand, tier string) interface{} {
 	for i := 0; i < ns; i++ {
 		s := c19Syncer{Mode: rng.PickStr("key", "rawkey", "prefix", "rawprefix")}
 		if strings.HasSuffix(s.Mode, "prefix") {
-			s.Target = rng.PickStr("/p/", "/p/", "/p/a")
+			s.Target = alpha.prefixT[rng.Intn(len(alpha.prefixT))]
 		} else {
-			s.Target = rng.PickStr("/p/a", "/p/a", "/p/b")
+			s.Target = alpha.keyT[rng.Intn(len(alpha.keyT))]
 		}
 		s.PullMs = int64(rng.Pick(200, 1000, 10000))
 		switch rng.Intn(4) {
@@ -319,6 +467,17 @@ func c19Gen(rng *sim.Rand, tier string) interface{} {
 		sc.Role = rng.PickStr("primary", "secondary")
 		sc.MaxSendKB = rng.Pick(0, 0, 48, 300)
 	}
+	// three pairwise different values of the alphabet for the steady writers
+	steadyVals := []string{"v1", "v2", "v3"}
+	switch strings.TrimSuffix(alpha.name, "+deep") {
+	case "near":
+		steadyVals = []string{"v1", "V1", "v1 "}
+	case "bin":
+		steadyVals = []string{"hex:00", "hex:0000", "hex:ff"}
+	case "big":
+		steadyVals = []string{"big:4097:tail:a", "big:4097:tail:b", "big:20001:head:a"}
+	}
+	silentLeft := 1 // at most one silent outage per run (each costs minutes of virtual time)
 	np := rng.Range(1, 3)
 	for p := 0; p < np; p++ {
 		ph := c19Phase{}
@@ -336,13 +495,13 @@ func c19Gen(rng *sim.Rand, tier string) interface{} {
 			}
 			var total int64
 			for i, n := 0, nops; i < n; i++ {
-				op := c19GenOp(rng, burst)
+				op := c19GenOp(rng, burst, alpha)
 				if steady {
 					op.GapUs = int64(rng.Pick(1307, 5003, 52_101))
 					if rng.Bool(0.8) {
 						op.Kind, op.KVs = "put", nil
 						op.Key = rng.PickStr("/p/a", "/p/a", "/p/b")
-						op.Val = []string{"v1", "v2", "v3"}[i%3]
+						op.Val = steadyVals[i%3]
 					}
 				}
 				total += op.GapUs
@@ -365,6 +524,14 @@ func c19Gen(rng *sim.Rand, tier string) interface{} {
 				ft.Kind = "stop"
 				ft.DurUs = int64(rng.Pick(1_003, 200_017, 1_300_021, 3_700_029))
 				ft.Compact = rng.Bool(0.5)
+				if c19SilentOutage && sc.Client == "real" && silentLeft > 0 && sc.Syncers[0].PullMs >= 1000 && rng.Bool(0.3) {
+					// the server vanishes WITHOUT closing its connections (host
+					// powered off, network partition); Compact = the process restarts
+					silentLeft--
+					ft.Kind = "silent"
+					ft.Heal = rng.PickStr("reset", "dead", "dead")
+					ft.DurUs = int64(rng.Pick(200_017, 3_700_029, 17_000_041))
+				}
 			case x < 60:
 				ft.Kind = "compact"
 				ft.Back = int64(rng.Pick(0, 0, 1, 3))
@@ -389,6 +556,19 @@ func c19Gen(rng *sim.Rand, tier string) interface{} {
 		sort.SliceStable(ph.Faults, func(i, j int) bool { return ph.Faults[i].AtUs < ph.Faults[j].AtUs })
 		sc.Phases = append(sc.Phases, ph)
 	}
+	if silentLeft == 0 {
+		// a fatal watch stream error can leave syncer.run pulling back-to-back (see
+		// the header: busy pull loop, throttled to 20 pulls per second); together
+		// with the minutes of quiet time a silent outage needs, that exhausts the
+		// step budget: such runs get the resumable stream break instead
+		for pi := range sc.Phases {
+			for fi := range sc.Phases[pi].Faults {
+				if sc.Phases[pi].Faults[fi].Kind == "halt" {
+					sc.Phases[pi].Faults[fi].Kind = "break"
+				}
+			}
+		}
+	}
 	return sc
 }
 
@@ -405,21 +585,22 @@ type c19Env struct {
 	up    bool
 
 	// fault budgets, consumed by the hooks
-	rangeErrLeft  int
-	rangeErrCode  codes.Code
-	rangeSlowLeft int
-	rangeSlowDur  time.Duration
-	rangeLateLeft int
-	rangeLateDur  time.Duration
-	watchSlowLeft int
-	watchSlowDur  time.Duration
-	lostReplyLeft int
-	pullErrors    int
-	rangeCalls    int
-	nonce         int
-	rangeAt       []time.Duration
-	busy          bool
-	lastHalt      time.Duration
+	rangeErrLeft   int
+	rangeErrCode   codes.Code
+	rangeSlowLeft  int
+	rangeSlowDur   time.Duration
+	rangeLateLeft  int
+	rangeLateDur   time.Duration
+	watchSlowLeft  int
+	watchSlowDur   time.Duration
+	lostReplyLeft  int
+	pullErrors     int
+	rangeCalls     int
+	nonce          int
+	rangeAt        []time.Duration
+	busy           bool
+	lastHalt       time.Duration
+	awaitFirstPull bool
 }
 
 // sleep lets d pass plus a few nanoseconds that are different for every call:
@@ -435,7 +616,9 @@ const c19Addr = "etcd:2379"
 // Generator switches of the later extensions (false = the generator range
 // before that extension).
 const (
-	c19RealClient = true // etcd client created by cluster.getClient from options
+	c19RealClient    = true // etcd client created by cluster.getClient from options
+	c19WideAlphabets = true // values that differ minimally / binary / 4-70 KB, hierarchical and odd key names, more targets
+	c19SilentOutage  = true // fault kind "silent": server unreachable without its connections being closed (needs c19RealClient: keep-alive)
 )
 
 // c19Rounds: see the quiet-period loop in c19Exec.
@@ -577,6 +760,12 @@ func (e *c19Env) unaryHook(ctx context.Context, ph zzsimetcd.Phase, method strin
 		if slept {
 			r.Yield("etcd.wake")
 		}
+		if method == "Range" && e.awaitFirstPull {
+			e.awaitFirstPull = false
+			if e.rangeErrLeft > 0 {
+				r.Probe("first_pull_of_the_syncer_refused_with_error")
+			}
+		}
 		if method == "Range" && e.rangeErrLeft > 0 {
 			e.rangeErrLeft--
 			r.Fault("etcd.range_error." + e.rangeErrCode.String())
@@ -628,9 +817,9 @@ func c19KVString(kv *mvccpb.KeyValue, raw bool) string {
 		return "<nil>"
 	}
 	if raw {
-		return fmt.Sprintf("%q=%q(c%d,m%d,v%d,l%x)", kv.Key, kv.Value, kv.CreateRevision, kv.ModRevision, kv.Version, kv.Lease)
+		return fmt.Sprintf("%q=%s(c%d,m%d,v%d,l%x)", kv.Key, c19ValStr(kv.Value), kv.CreateRevision, kv.ModRevision, kv.Version, kv.Lease)
 	}
-	return fmt.Sprintf("%q=%q", kv.Key, kv.Value)
+	return fmt.Sprintf("%q=%s", kv.Key, c19ValStr(kv.Value))
 }
 
 // c19Finger renders a projected content canonically.
@@ -752,7 +941,7 @@ func c19FPOf(v interface{}) string {
 		if x == nil {
 			return "<nil>"
 		}
-		return fmt.Sprintf("%q", *x)
+		return c19ValStr([]byte(*x))
 	case *mvccpb.KeyValue:
 		return c19KVString(x, true)
 	case map[string]string:
@@ -763,32 +952,13 @@ func c19FPOf(v interface{}) string {
 		sort.Strings(ks)
 		var b strings.Builder
 		for _, k := range ks {
-			fmt.Fprintf(&b, "%q=%q;", k, x[k])
+			fmt.Fprintf(&b, "%q=%s;", k, c19ValStr([]byte(x[k])))
 		}
 		return b.String()
 	case map[string]*mvccpb.KeyValue:
 		return c19Finger(x, true)
 	}
 	return "?"
-}
-
-// c19FirstReadConn lets a few (per call different) nanoseconds pass in the
-// first Read of a client connection: the keep-alive timer of the transport is
-// armed when the connection is created, the auto-sync timer of the client when
-// the dial has returned (= server preface read); both are one minute, and
-// without network delay they would expire in the same instant (README rule).
-type c19FirstReadConn struct {
-	net.Conn
-	env  *c19Env
-	done bool
-}
-
-func (c *c19FirstReadConn) Read(b []byte) (int, error) {
-	if !c.done {
-		c.done = true
-		c.env.sleep(0)
-	}
-	return c.Conn.Read(b)
 }
 
 type c19NullSink struct{}
@@ -798,6 +968,43 @@ func (c19NullSink) Sync() error                 { return nil }
 func (c19NullSink) Close() error                { return nil }
 
 var c19SinkOnce sync.Once
+
+// c19CloseClient closes the cluster's etcd client but leaves the (closed)
+// client in place: cluster.closeClient would clear the field, and a straggler
+// of an aborted run (step budget exhausted, tasks not waited for) calling the
+// API afterwards would make getClient create a NEW client - by then with the
+// dial options of the NEXT run of this process.
+func c19CloseClient(cl *cluster) {
+	if c := cl.client; c != nil {
+		c.Close()
+	}
+}
+
+// c19SizeOf is the number of value bytes of a delivered snapshot.
+func c19SizeOf(v interface{}) int {
+	n := 0
+	switch x := v.(type) {
+	case *string:
+		if x != nil {
+			n = len(*x)
+		}
+	case *mvccpb.KeyValue:
+		if x != nil {
+			n = len(x.Value)
+		}
+	case map[string]string:
+		for _, e := range x {
+			n += len(e)
+		}
+	case map[string]*mvccpb.KeyValue:
+		for _, e := range x {
+			if e != nil {
+				n += len(e.Value)
+			}
+		}
+	}
+	return n
+}
 
 // ---- executor ---------------------------------------------------------------------------
 
@@ -839,13 +1046,20 @@ func c19Exec(r *sim.Run, sci interface{}) {
 		StreamOpen: func(ctx context.Context, method string) error { r.Yield("etcd.stream"); return nil }}
 	env.start()
 
+	// reset here, not in a deferred call: the Exec of an aborted run (step budget)
+	// may never return, and the next run of the process must not inherit its dialer
+	clientv3.SimExtraDialOptions = nil
 	dialOpts := []grpc.DialOption{grpc.WithContextDialer(func(ctx context.Context, addr string) (net.Conn, error) {
+		if sc.Client == "real" {
+			// the keep-alive timer of a transport (1 minute) is armed right after
+			// its dial: not in the instant in which the client armed its auto-sync
+			// timer (also 1 minute) or a caller its request time-out (README rule:
+			// no two timers for the same instant)
+			env.sleep(0)
+		}
 		c, err := n.Dial(ctx, "tcp", addr)
 		if err == nil && c19DebugIO {
 			c = &c19DbgConn{Conn: c, r: r, side: "client"}
-		}
-		if err == nil && sc.Client == "real" {
-			c = &c19FirstReadConn{Conn: c, env: env}
 		}
 		return c, err
 	}),
@@ -935,9 +1149,9 @@ func c19Exec(r *sim.Run, sci interface{}) {
 		switch op.Kind {
 		case "put":
 			if via == "api" {
-				err = cl.Put(op.Key, op.Val)
+				err = cl.Put(op.Key, c19Expand(op.Val))
 			} else {
-				env.store.PutKV(op.Key, op.Val)
+				env.store.PutKV(op.Key, c19Expand(op.Val))
 			}
 		case "del":
 			if via == "api" {
@@ -964,6 +1178,10 @@ func c19Exec(r *sim.Run, sci interface{}) {
 					continue
 				}
 				kvs[kv.Key] = kv.Val
+				if kv.Val != nil {
+					x := c19Expand(*kv.Val)
+					kvs[kv.Key] = &x
+				}
 			}
 			if via == "api" {
 				err = cl.PutAndDelete(kvs)
@@ -988,6 +1206,9 @@ func c19Exec(r *sim.Run, sci interface{}) {
 		}
 		res := "ok"
 		if err != nil {
+			if status.Code(err) == codes.ResourceExhausted {
+				r.Probe("api_write_refused_by_max_call_send_msg_size")
+			}
 			res = "err:" + status.Code(err).String()
 			if c19DebugIO {
 				res += " (" + err.Error() + ")"
@@ -1053,7 +1274,7 @@ func c19Exec(r *sim.Run, sci interface{}) {
 		syncs = append(syncs, s)
 	}
 	if len(syncs) == 0 {
-		cl.closeClient()
+		c19CloseClient(cl)
 		env.stop()
 		env.store.Close()
 		n.Shutdown()
@@ -1082,6 +1303,10 @@ func c19Exec(r *sim.Run, sci interface{}) {
 			// round duration after the one in which another timer was armed)
 			time.Sleep(time.Duration(557 + 29*s.idx))
 			s.startRev = env.store.Rev()
+			if !env.up {
+				r.Probe("syncer_started_while_server_down")
+			}
+			env.awaitFirstPull = true
 			one := func(k string, kv *mvccpb.KeyValue) map[string]*mvccpb.KeyValue {
 				m := map[string]*mvccpb.KeyValue{}
 				if kv != nil {
@@ -1249,6 +1474,7 @@ func c19Exec(r *sim.Run, sci interface{}) {
 			})
 		}
 		faults := ph.Faults
+		phaseExtra := time.Duration(0)
 		wg.Add(1)
 		r.Go(fmt.Sprintf("p%dfaults", pi), func() {
 			defer wg.Done()
@@ -1288,6 +1514,46 @@ func c19Exec(r *sim.Run, sci interface{}) {
 						env.lastHalt = r.Now()
 					}
 					r.Eventf("fault halt (%d streams)", k)
+				case "silent":
+					if sc.Client != "real" {
+						// a client without keep-alive (harness-made) would never notice
+						break
+					}
+					// the server becomes unreachable and nobody is told: established
+					// connections go silent in both directions, new ones are refused
+					for _, c := range n.Conns() {
+						c.Blackhole()
+					}
+					n.SetDown(c19Addr, true)
+					if f.Compact {
+						env.stop() // the process is gone too; its FINs vanish
+					}
+					r.Fault("net.silent_outage")
+					r.Eventf("fault silent outage for %v (process restarts: %v, old connections afterwards: %s)", dur, f.Compact, f.Heal)
+					if f.Heal != "reset" {
+						// the client's keep-alive (1 min idle + 1 min time-out, cluster.go)
+						// is what ends a connection that stays silent: this phase's quiet
+						// periods are that much longer
+						phaseExtra = 125 * time.Second
+						r.Probe("silent_outage_old_connection_stays_dead")
+					}
+					if dur > maxDown {
+						maxDown = dur
+					}
+					dead := n.Conns()
+					r.Sleep(dur)
+					if f.Compact {
+						env.start()
+					}
+					n.SetDown(c19Addr, false)
+					if f.Heal == "reset" {
+						// the rebooted host answers the old connections' packets with RST
+						for _, c := range dead {
+							c.Reset()
+						}
+						r.Probe("silent_outage_old_connection_reset_at_heal")
+					}
+					r.Eventf("server reachable again at rev %d", env.store.Rev())
 				case "stop":
 					env.stop()
 					r.Fault("etcd.server_stop")
@@ -1337,7 +1603,7 @@ func c19Exec(r *sim.Run, sci interface{}) {
 		// quiet period: no writes, no faults, prompt consumers
 		env.clearFaults()
 		prompt = true
-		quiet := 2*maxPull + 2*reqTimeout + 2*maxDown + maxLag + 3*time.Second
+		quiet := 2*maxPull + 2*reqTimeout + 2*maxDown + maxLag + 3*time.Second + phaseExtra
 		r.Eventf("phase %d: activity over at rev %d, quiet for %v", pi, env.store.Rev(), quiet)
 		// Bounded liveness. One quiet period normally suffices. It does not when
 		// (a) a write whose client gave up is still in flight and lands later (then
@@ -1398,7 +1664,7 @@ func c19Exec(r *sim.Run, sci interface{}) {
 	if !aborted {
 		r.WaitTasks()
 	}
-	cl.closeClient()
+	c19CloseClient(cl)
 	env.stop()
 	env.store.Close()
 	n.Shutdown()
@@ -1508,6 +1774,12 @@ func c19Exec(r *sim.Run, sci interface{}) {
 			}
 		}
 		total += len(s.snaps)
+		for _, sn := range s.snaps {
+			if c19SizeOf(sn.orig) > 48*1024 {
+				r.Probe("snapshot_content_over_48KB")
+				break
+			}
+		}
 		if s.full {
 			r.Probe("channel_full_10_slots")
 		}
@@ -1539,12 +1811,36 @@ func c19Exec(r *sim.Run, sci interface{}) {
 			}
 			if v, ok := lastVal[k]; ok && v == string(ev.Kv.Value) {
 				r.Probe("same_value_put")
+			} else if ok {
+				nv := string(ev.Kv.Value)
+				switch {
+				case strings.EqualFold(v, nv) || strings.TrimSpace(v) == strings.TrimSpace(nv):
+					r.Probe("value_changed_only_in_case_or_white_space")
+				case len(v) > 4096 && len(v) == len(nv) && v[:4096] == nv[:4096]:
+					r.Probe("big_value_changed_only_after_its_first_4096_bytes")
+				case len(v) != len(nv) && (strings.HasPrefix(v, nv) || strings.HasPrefix(nv, v)):
+					r.Probe("value_changed_to_a_prefix_or_extension_of_itself")
+				}
+			}
+			if !utf8.Valid(ev.Kv.Value) || bytes.IndexByte(ev.Kv.Value, 0) >= 0 {
+				r.Probe("value_not_utf8_or_with_nul")
+			}
+			if len(ev.Kv.Value) > 65536 {
+				r.Probe("value_over_64KB")
+			}
+			if len(k) > 1 && (strings.ContainsAny(k[1:], " %.\u00fc") || strings.HasSuffix(k, "/") || strings.Count(k, "/") > 2) {
+				r.Probe("odd_or_hierarchical_key_name")
 			}
 			if deleted[k] {
 				r.Probe("delete_then_recreate")
 				deleted[k] = false
 			}
 			lastVal[k] = string(ev.Kv.Value)
+		}
+	}
+	if sc.Alphabet != "" && sc.Alphabet != "plain" {
+		for _, part := range strings.Split(sc.Alphabet, "+") {
+			r.Probe("alphabet_" + part)
 		}
 	}
 	if total >= 2 && writesAfterStart >= 1 {
@@ -1561,15 +1857,18 @@ func TestVerifC19(t *testing.T) {
 		New:      func() interface{} { return &c19Scenario{} },
 		Exec:     c19Exec,
 		MaxSteps: 100000,
-		Rule: "scenario = 1-2 syncers (key/rawkey/prefix/rawprefix, pull 200ms/1s/10s, prompt or lagging consumer) + 1-3 phases of writer tasks (put/same-value put/delete/recreate/delete-prefix/txn, under and outside the target, via the cluster API or directly in the store) and timed faults (stream break, fatal stream error, server stop/start with optional compaction, compaction, Range error/slowness, slow watch delivery, lost reply), each phase followed by a quiet period; " +
+		Rule: "scenario = 1 syncer (key/rawkey/prefix/rawprefix, pull 200ms/1s/10s, prompt or lagging consumer) on a cluster whose etcd client is made by the harness or by cluster.getClient from options (max-call-send-msg-size default/48KB/300KB) + 1-3 phases of writer tasks (put/same-value put/delete/recreate/delete-prefix/txn, under and outside the target, via the cluster API or directly in the store; value alphabets plain / minimally different / binary / 4-70 KB, plain or hierarchical+odd key names) and timed faults (stream break, fatal stream error, server stop/start with optional compaction, silent outage with reset or dead connections, compaction, Range error/slowness, slow watch delivery, lost reply), each phase followed by a quiet period; " +
 			"non-trivial = at least two snapshots were delivered and the target changed after the syncer started; distinct = distinct (mode, target, delivered value sequence)",
-		Real: []string{"pkg/cluster syncer.run, Sync/SyncRaw/SyncPrefix/SyncRawPrefix, cluster.Get*/Put/Delete/DeletePrefix/PutAndDelete (instrumented sync)", "go.etcd.io/etcd/client/v3 (watcher resume, retry interceptor)", "google.golang.org/grpc client and server over simnet"},
-		Stub: []string{"etcd server = simetcd (single-copy MVCC model with history, compaction, watch streams; harness/simetcd)", "cluster value built in-package around the client (no embedded etcd, no heartbeat)", "network = simnet"},
+		Real: []string{"pkg/cluster syncer.run, Sync/SyncRaw/SyncPrefix/SyncRawPrefix, cluster.Get*/Put/Delete/DeletePrefix/PutAndDelete (instrumented sync)", "cluster.getClient with option.Options (half of the runs): endpoints, auto-sync, keep-alive, max-call-send-msg-size", "go.etcd.io/etcd/client/v3 (watcher resume, retry interceptor)", "google.golang.org/grpc client and server over simnet"},
+		Stub: []string{"etcd server = simetcd (single-copy MVCC model with history, compaction, watch streams; harness/simetcd)", "cluster value built in-package (no embedded etcd, no heartbeat; client pre-set by the harness or created by getClient through a simnet dialer hook in an overlaid copy of clientv3/client.go; the client's log file goes to a discarding zap sink)", "network = simnet"},
 		Assumptions: []string{
 			"first snapshot: an empty target may yield no snapshot or one empty snapshot",
 			"content = key->value; raw adapters: real-state and consecutive-differ rules use the full KeyValue, convergence uses key->value",
 			"convergence is required after a quiet period of 2*pull + 2*requestTimeout + 2*longest outage + max consumer lag + 3s",
 			"server-initiated watch cancel without compact revision is not generated",
+			"silent outage with dead connections: quiet period 125 s longer; asserted bound stays 30 quiet periods (> 1 h)",
+			"an API write refused by the send limit did not happen; the error code of a failed API write is not judged",
+			"silent outages are generated only with the client made by cluster.getClient (a client without keep-alive never notices a dead connection) and pull >= 1 s; runs with a silent outage replace fatal watch stream errors by resumable breaks (step budget)",
 			"select order inside syncer.run / clientv3 / grpc is chosen by the Go runtime (not by the seeded scheduler)",
 		},
 	})
